@@ -1,17 +1,43 @@
 /-
-  C01 — every instruction step follows ICWS'94 semantics (property theorems).
+  C01 — every instruction step follows ICWS'94 semantics, including read/write limits
+  (property theorems; helper lemmas live in Gmars/Proofs/Refine*.lean).
 -/
-import Gmars.Proofs.Fold
+import Gmars.Proofs.Refine
 
 namespace Gmars.Props.C01
 open Gmars Gmars.Spec
 
-/-- read/write-limit folding of every pointer: model = reference (limits 1..M) -/
+/-- read/write-limit folding of every pointer: model = reference (limits 1..M, any core size) -/
 theorem fold_refines (s : Sim) (p : UInt64)
     (hR : 0 < s.readLimit.toNat ∧ s.readLimit.toNat ≤ s.m.toNat)
     (hW : 0 < s.writeLimit.toNat ∧ s.writeLimit.toNat ≤ s.m.toNat) :
     (s.readFold p).toNat = fold p.toNat s.readLimit.toNat s.m.toNat ∧
     (s.writeFold p).toNat = fold p.toNat s.writeLimit.toNat s.m.toNat :=
   ⟨foldU_toNat _ _ _ hR.1 hR.2, foldU_toNat _ _ _ hW.1 hW.2⟩
+
+/-- `step_refines` — THE theorem of C01. In every state satisfying the simulator invariant, with
+    core size 3 ≤ M ≤ 2^32 and read/write limits 1 ≤ R, W ≤ M (`StepPre`), for every program
+    counter, every core content (all 17×7×8×8 instruction forms, all field values) and every
+    process limit: executing one task in the model of sim.go/simops.go/queue.go never panics,
+    and changes the core exactly as one step of the ICWS'94 reference interpreter `Spec.step`
+    prescribes (cell for cell), and the executing warrior's process queue exactly as the
+    reference's bounded FIFO `Spec.enqueue` does (element for element); everything else
+    (other warriors, counters, configuration) is untouched. -/
+theorem step_refines (s : Sim) (pc : UInt64) (wi : Nat) (q : PQ) (h : StepPre s pc wi q) :
+    ∃ s' q', s.exec pc wi = .ok s' ∧
+      s'.absCore = (step s.m.toNat s.readLimit.toNat s.writeLimit.toNat s.absCore pc.toNat).core ∧
+      s'.pqOf wi = some q' ∧ q'.Inv ∧ q'.size = q.size ∧
+      q'.toList.map (·.toNat) =
+        enqueue q.size.toNat (q.toList.map (·.toNat))
+          (step s.m.toNat s.readLimit.toNat s.writeLimit.toNat s.absCore pc.toNat).succ ∧
+      Frame s s' wi ∧ s'.FieldsOK :=
+  exec_refines s pc wi q h
+
+/-
+  Bound. `StepPre` requires M ≤ 2^32. Above that the Go expression `(IRB.A * IRA.A) % s.m`
+  of `mul` wraps in uint64 before the reduction, so MUL differs from the reference; such a
+  core needs more than 160 GB and cannot be built through the public API in this sandbox
+  (DESIGN.md F18). Every other opcode is wrap-free up to M ≤ 2^63.
+-/
 
 end Gmars.Props.C01
